@@ -10,6 +10,8 @@ R5  matrix growth: new_var resizes when full; resize initialises like the constr
 from ..expr import LocalEnv, canon, show
 from ..facts import AnalysisBroken, short, src, walk
 from .. import sib_dl, dual, effects
+from ..tables import enum_paths, path_literals, value_of, norm_literal, eq_test
+from ..expr import mentions
 
 ACCEPTED_SIBLING_DIFFS = {
     # method name: reason
@@ -68,24 +70,22 @@ def r2(ctx, fs, rid='C10.R2'):
         if dist is None:
             raise AnalysisBroken('%s: local `dist` (the constraint controlled by p) not found' % f.id)
         FR, TO, DD = ('.', dist, 'from'), ('.', dist, 'to'), ('.', dist, 'dist')
-        sw = [n for n in f.nodes() if n.get('k') == 'SwitchStmt']
-        if len(sw) != 1:
-            raise AnalysisBroken('%s: expected one switch on the value of the controlling literal' % f.id)
-        from ..tables import switch_arms
-        arms = {}
-        for labels, st in switch_arms(sw[0]):
-            for l in labels:
-                if l[0] == 'case':
-                    arms[l[2]] = st
+        # decided on the paths of the function: whatever spells the dispatch on the value of the controlling literal (switch, if chain) and the two tests
+        # of the distance matrix (if / else if, early exits), a path is in one arm (True / False) and has seen, in this order, the conflict test and -
+        # when that failed - the test that decides whether the edge tightens the matrix
+        VAL = ('mcall', 'smt::sat_core::value', 'smt::theory::sat', ('.', dist, 'b'))
+        cn = lambda n: canon(n, env)
+        arms = {'True': [], 'False': []}
+        for p in enum_paths(f.body):
+            L = path_literals(p, cn)
+            if L is None:
+                continue
+            v = value_of(L, VAL)
+            if v in arms:
+                arms[v].append((p, L))
         for val in ('True', 'False'):
-            if val not in arms:
-                raise AnalysisBroken('%s: no case %s' % (f.id, val))
-            arm = arms[val]
-            if arm.get('k') != 'IfStmt':
-                raise AnalysisBroken('%s case %s: expected if (conflict) ... else if (needs propagation)' % (f.id, val))
-            c1 = canon(arm['slots']['cond'], env)
-            el = arm['slots'].get('else')
-            c2 = canon(el['slots']['cond'], env) if el and el.get('k') == 'IfStmt' else None
+            if not arms[val]:
+                raise AnalysisBroken('%s: no path on which the controlling literal is %s' % (f.id, val))
             if val == 'True':
                 want1 = ('<', _D(TO, FR, T), ('neg', DD))
                 want2 = ('<', DD, _D(FR, TO, T))
@@ -94,26 +94,60 @@ def r2(ctx, fs, rid='C10.R2'):
                 want1 = ('<=', _D(FR, TO, T), DD)
                 want2 = ('<=', ('neg', DD), _D(TO, FR, T))
                 wantp = (TO, FR, ('d', -1, -1))
-            ctx.instance(rid, [f.id, val, 'conflict'], {'arm': val, 'conflict_test': show(c1)})
-            if c1 != want1:
+            w1, w2 = norm_literal(want1, True), norm_literal(want2, True)
+            neg = lambda w: (w[0], not w[1])
+            firsts, seconds, edges = [], [], []
+            shape_ok = True
+            for p, L in arms[val]:
+                D = [(c[1], c[2], c) for c in L if c[0] == 'if' and mentions(c[1], T + '::_dists')]
+                calls = [m for st in p.stmts if not st.get('as') for m in walk(st) if m.get('callee_name') == T + '::propagate']
+                if D:
+                    firsts.append(D[0])
+                if len(D) > 1:
+                    seconds.append(D[1])
+                lits = [(d[0], d[1]) for d in D]
+                if lits == [neg(w1), w2]:
+                    edges.append((p, calls))
+                elif lits in ([w1], [neg(w1), neg(w2)]):
+                    if calls:
+                        edges.append((p, calls + [None]))       # an edge propagated although the test says there is nothing to tighten
+                else:
+                    shape_ok = False
+
+            def as_written(d):
+                # the test as the source spells it when it holds
+                t, pol = d[0], d[1]
+                return t if pol else ('<=', t[2], t[1]) if isinstance(t, tuple) and len(t) == 3 and t[0] == '<' else ('!', t)
+            c1 = as_written(firsts[0]) if firsts else None
+            # the conflict test is the first test of the matrix on every path of the arm (positive where the conflict is found)
+            ok1 = bool(firsts) and all((d[0], d[1]) in (w1, neg(w1)) for d in firsts)
+            ok2 = bool(seconds) and all((d[0], d[1]) in (w2, neg(w2)) for d in seconds)
+            c2 = as_written(seconds[0]) if seconds else None
+            ctx.instance(rid, [f.id, val, 'conflict'], {'arm': val, 'conflict_test': show(firsts[0][0]) if firsts else None})
+            if not ok1:
                 ctx.finding(rid, f.id, '%s/conflict' % val, '%s, literal %s: conflict test is %s, the semantics of "to - from <= d"%s requires %s' % (
-                    f.name, val, show(c1), '' if val == 'True' else ' negated', show(want1)), node=arm['slots']['cond'], expect=show(want1))
-            ctx.instance(rid, [f.id, val, 'needs'], {'arm': val, 'propagation_test': show(c2)})
-            if c2 != want2:
+                    f.name, val, show(c1), '' if val == 'True' else ' negated', show(want1)), node=(firsts[0][2][1] if False else arms[val][0][0].endnode) or f.body, expect=show(want1))
+            ctx.instance(rid, [f.id, val, 'needs'], {'arm': val, 'propagation_test': show(seconds[0][0]) if seconds else None})
+            if not ok2:
                 ctx.finding(rid, f.id, '%s/needs' % val, '%s, literal %s: the test deciding whether the edge tightens the matrix is %s, expected %s' % (
-                    f.name, val, show(c2), show(want2)), node=(el or arm)['slots']['cond'] if el else arm, expect=show(want2))
+                    f.name, val, show(c2), show(want2)), loc=f.loc, expect=show(want2))
+            if ok1 and ok2 and not shape_ok:
+                ctx.finding(rid, f.id, '%s/shape' % val, '%s, literal %s: a path does not make the conflict test and then, when it fails, the tightening test' % (f.name, val), loc=f.loc)
             # the propagated edge
-            calls = [n for n in walk(el['slots']['then'] if el and el.get('k') == 'IfStmt' else arm) if n.get('callee_name') == T + '::propagate']
-            ctx.instance(rid, [f.id, val, 'edge'], {'arm': val, 'edge_calls': [src(c) for c in calls]})
-            if len(calls) != 1:
-                ctx.finding(rid, f.id, '%s/edge' % val, '%s, literal %s: %d calls to propagate(from,to,d) in the tightening branch (expected 1)' % (f.name, val, len(calls)), node=arm)
+            ecalls = [c for p, cs in edges for c in cs]
+            ctx.instance(rid, [f.id, val, 'edge'], {'arm': val, 'edge_calls': [src(c) for c in ecalls if c is not None]})
+            if not edges or any(len(cs) != 1 for p, cs in edges):
+                ctx.finding(rid, f.id, '%s/edge' % val, '%s, literal %s: %d calls to propagate(from,to,d) in the tightening branch (expected 1)' % (f.name, val, len([c for c in ecalls if c is not None])),
+                            loc=f.loc)
                 continue
-            t = canon(calls[0], env)
-            got = (t[3], t[4], _aff(t[5], DD))
-            if got != wantp:
-                ctx.finding(rid, f.id, '%s/edge' % val, '%s, literal %s: propagates edge (%s, %s, %s); expected (%s, %s, %s)' % (
-                    f.name, val, show(got[0]), show(got[1]), _fmt_aff(got[2]), show(wantp[0]), show(wantp[1]), _fmt_aff(wantp[2])), node=calls[0],
-                    expect='asserted: (from, to, d); negated: (to, from, -d - unit)')
+            for p, cs in edges:
+                t = canon(cs[0], env)
+                got = (t[3], t[4], _aff(t[5], DD))
+                if got != wantp:
+                    ctx.finding(rid, f.id, '%s/edge' % val, '%s, literal %s: propagates edge (%s, %s, %s); expected (%s, %s, %s)' % (
+                        f.name, val, show(got[0]), show(got[1]), _fmt_aff(got[2]), show(wantp[0]), show(wantp[1]), _fmt_aff(wantp[2])), node=cs[0],
+                        expect='asserted: (from, to, d); negated: (to, from, -d - unit)')
+                    break
 
 
 def _aff(t, DD):
@@ -160,14 +194,22 @@ def r3(ctx, fs):
         T = 'smt::%s_theory' % th
         f = fs.fn(T + '::propagate', params=['lit'])
         sts = [s for s in effects.stores(f) if s.fields and s.fields[0] == T + '::dist_constr']
+        # the arm a store belongs to: the value that the paths through it give to the controlling literal (switch arm or branch of an if chain)
+        env = LocalEnv(f)
+        cn = lambda n: canon(n, env)
+        is_val = lambda t: isinstance(t, tuple) and t[:3] == ('mcall', 'smt::sat_core::value', 'smt::theory::sat')
+        pv = []
+        for p in enum_paths(f.body):
+            L = path_literals(p, cn)
+            if L is None:
+                continue
+            vs = {value_of(L, ek[0]) for c in L if c[0] == 'if' and c[2] for ek in [eq_test(c[1])] if ek is not None and is_val(ek[0])}
+            pv.append((p, next(iter(vs)) if len(vs) == 1 else None))
         i = 0
         for s in sts:
             i += 1
-            arm = None
-            for a in f.ancestors(s.node):
-                if a.get('k') == 'CaseStmt':
-                    arm = a.get('case_name')
-                    break
+            arms = {v for p, v in pv if any(m is s.node for st in p.stmts for m in walk(st))}
+            arm = next(iter(arms)) if len(arms) == 1 else None
             disc = 'install/%s' % arm
             ctx.instance(rid, [f.id, disc], {'function': f.id, 'store': src(s.node), 'how': s.how})
             if s.how in ('emplace', 'insert', 'try_emplace', 'emplace_hint'):
